@@ -58,7 +58,7 @@ def expected(sc):
     for t in sc['corpus']:
         counts[t] = counts.get(t, 0) + 1
     for t, c in counts.items():
-        syns = g['words'].get(t, [])
+        syns = G.ic_lookup(g, t)
         if not syns:
             continue
         wgt = Fraction(c, len(syns)) if sc['distribute'] else Fraction(c)
@@ -117,15 +117,19 @@ def process(ctx, scs):
     for sc, i, m in zip(scs, impl, model):
         g = sc['graph']
         feats = G.features(g)
-        found = any(t in g['words'] for t in sc['corpus'])
+        found = any(G.ic_lookup(g, t) for t in sc['corpus'])
         for f in feats:
             ctx.dist[f] += 1
         ctx.dist['distribute' if sc['distribute'] else 'no-distribute'] += 1
         ctx.dist['smoothing=0' if sc['smoothing'][0] == 0 else 'smoothing>0'] += 1
-        if any(t not in g['words'] for t in sc['corpus']):
+        if any(not G.ic_lookup(g, t) for t in sc['corpus']):
             ctx.dist['unknown-words'] += 1
         if 's' in g['pos']:
             ctx.dist['satellite-adjectives'] += 1
+        if any(t not in g['words'] and G.ic_lookup(g, t) for t in sc['corpus']):
+            ctx.dist['token-found-by-normalized-pass'] += 1
+        if len({w.lower() for w in g['words']}) < len(g['words']):
+            ctx.dist['case-variant-forms'] += 1
         nontriv = found and ('multi_parent' in feats or 'cyclic' in feats)
         ctx.case(sc if nontriv else None)
         judge(ctx, sc, i, m)
